@@ -1,0 +1,22 @@
+//go:build verif
+
+package mhprimary
+
+import "github.com/ipld/go-storethehash/store/types"
+
+// Accessors for the verification harness in /verif. Compiled only with the
+// "verif" build tag; they add no behaviour.
+
+// VerifPredicted returns where the next Put will be placed.
+func (mp *MultihashPrimary) VerifPredicted() (uint32, types.Position) {
+	mp.poolLk.RLock()
+	defer mp.poolLk.RUnlock()
+	return mp.recFileNum, mp.recPos
+}
+
+// VerifFlushed returns the file number and length of flushed data.
+func (mp *MultihashPrimary) VerifFlushed() (uint32, types.Position) {
+	mp.flushLock.Lock()
+	defer mp.flushLock.Unlock()
+	return mp.fileNum, mp.length
+}
